@@ -11,12 +11,14 @@ import (
 	"os"
 	"strings"
 	"sync/atomic"
+	"time"
 
 	"cuelabs.dev/go/oci/ociregistry"
 	"cuelabs.dev/go/oci/ociregistry/ocimem"
 	"cuelabs.dev/go/oci/ociregistry/ociunify"
 
 	"verif/vcore"
+	"verif/vstate"
 )
 
 // C04: chunked and resumable uploads commit exactly the bytes written.
@@ -548,6 +550,20 @@ func c04Check(r *vcore.Run) vcore.Coverage {
 			nontrivial++
 		}
 	}
+	// second part: two writer values alive on one session of the in-memory registry, used in every order
+	// (explicit-state search to the fixpoint; every transition checked against the reference model)
+	u := newUniverse()
+	hcfg := alphabetConfig{Repos: []string{"r"}, Chunked: true, MaxUploads: 1, MaxUpload: 3, TwoHandles: true, FinishedOps: true}
+	hst := vstate.BFS(vstate.Spec[Op]{
+		New: func() vstate.System[Op] {
+			s := newMemSys(r, "C04", u, hcfg, false)
+			s.sub = "handles"
+			s.queries = sweepQueries(u, []string{"r"})
+			return s
+		},
+		MaxDepth: 30, Deadline: 5 * time.Minute,
+	})
+	r.Notes["two_writer_values"] = map[string]any{"states": hst.States, "transitions": hst.Transitions, "fixpoint": hst.Fixpoint, "completed_depth": hst.Depth, "cap_hit": hst.CapHit}
 	r.Sample("script", scripts[len(scripts)/3])
 	r.Sample("script-bad-resume", func() c04Script {
 		for _, s := range scripts {
@@ -563,11 +579,27 @@ func c04Check(r *vcore.Run) vcore.Coverage {
 		"over HTTP a refused write surfaces at the flush (Write or Close), since the client buffers",
 		"in-process transport (see C03's binding run against a real loopback server)",
 	}
-	return vcore.Coverage{States: int64(len(scripts)), Transitions: ops, TracesImpl: int64(len(scripts)), Evaluations: int64(len(scripts)), Nontrivial: nontrivial, Exhaustive: true,
-		Rule: "every composition of an n-byte content (n <= 4 quick / 6 thorough) into Write calls x chunk-size hints x every subset of write boundaries closed-and-resumed x resume modes {explicit, -1, alternating} x one bad resume (offset +1, -1, 0) at each boundary x one transport failure before delivery at the k-th data request (k <= 3, first hop; the failed Write/Commit is retried) x right/wrong commit digest (wrong = of absent content, of a different blob present in the repository, of the present empty blob) x stacks {mem, client->server->mem with registry minimum 1,2,3,8192, two hops, ociunify, ociunify over HTTP}; plus write sizes around the real 8192 minimum; states = scripts, transitions = writer operations; non-trivial = more than one Write"}
+	return vcore.Coverage{States: int64(len(scripts)) + hst.States, Transitions: ops + hst.Transitions, TracesImpl: int64(len(scripts)) + hst.Transitions, Evaluations: int64(len(scripts)) + hst.Transitions, Nontrivial: nontrivial + hst.States, Exhaustive: hst.CapHit == "",
+		Rule: "every composition of an n-byte content (n <= 4 quick / 6 thorough) into Write calls x chunk-size hints x every subset of write boundaries closed-and-resumed x resume modes {explicit, -1, alternating} x one bad resume (offset +1, -1, 0) at each boundary x one transport failure before delivery at the k-th data request (k <= 3, first hop; the failed Write/Commit is retried) x right/wrong commit digest (wrong = of absent content, of a different blob present in the repository, of the present empty blob) x stacks {mem, client->server->mem with registry minimum 1,2,3,8192, two hops, ociunify, ociunify over HTTP}; plus write sizes around the real 8192 minimum; plus, on the in-memory registry, every history (to the fixpoint) of one session of <= 3 bytes held through two writer values at once (start, write, resume at size/-1/0/wrong offset into either value, commit right/wrong, cancel, use after finish), each step checked against the reference model with its per-writer start offset; states = scripts + history states, transitions = writer operations; non-trivial = more than one Write"}
 }
 
 func c04Replay(r *vcore.Run, sub string, raw json.RawMessage) {
+	if sub == "handles" {
+		var c c02Case
+		if json.Unmarshal(raw, &c) != nil {
+			return
+		}
+		u := newUniverse()
+		s := newMemSys(r, "C04", u, alphabetConfig{Repos: []string{"r"}, Chunked: true, MaxUploads: 1, MaxUpload: 3, TwoHandles: true, FinishedOps: true}, false)
+		s.sub = "handles"
+		s.queries = sweepQueries(u, []string{"r"})
+		for _, op := range c.History {
+			if s.Apply(op, true) {
+				return
+			}
+		}
+		return
+	}
 	var sc c04Script
 	if json.Unmarshal(raw, &sc) == nil {
 		c04Run(r, sc)
